@@ -6,7 +6,7 @@
     nesting depth, both same-change settings. *)
 From Verif Require Import Base.Prelude Model.Merge Model.TreeMerge Model.TreeCase Model.C07.
 From Verif Require Import Proofs.TreeValue Proofs.TreeMerge Proofs.C07 Proofs.MergeIdentities.
-From Verif Require Import Model.TreeMerger Proofs.C07Sched.
+From Verif Require Import Model.TreeMerger Proofs.C07Sched Proofs.ResolveLoop.
 Local Open Scope Z_scope.
 
 Section Statements.
@@ -97,6 +97,16 @@ Section Statements.
     is_single m = false -> length (simplify tree_eqb m) <> length m ->
     (length (simplify tree_eqb m) < length ts)%nat.
   Proof. exact (resolve_round_decreases accept content_merge). Qed.
+  (** ... and the further rounds do not disturb what the first round resolved: a path whose
+      input values resolve trivially to [v], with no file/directory clash above it, reads
+      [v] in the tree MergedTree::resolve finally returns. *)
+  Theorem C07_resolve_keeps_resolved : forall (ts : list tree) (p : list N) (v : oval),
+    Nat.odd (length ts) = true -> p <> [] -> clash_above accept ts p = false ->
+    tm accept (map (value_at p) ts) = Some v ->
+    path_value accept (resolve accept content_merge ts) p = [v].
+  Proof.
+    intros ts p v H1 H2 H3 H4. apply resolve_keeps. repeat split; assumption.
+  Qed.
 End Statements.
 
 (** Meaning of the checker the harness applies to the implementation's outputs. *)
@@ -177,6 +187,7 @@ Proof. vm_compute. repeat split. congruence. Qed.
 
 Print Assumptions C07_pathwise.
 Print Assumptions C07_schedule_independent.
+Print Assumptions C07_resolve_keeps_resolved.
 Print Assumptions C07_clash.
 Print Assumptions C07_conflict_free_iff.
 Print Assumptions C07_base_identity.
